@@ -133,8 +133,10 @@ fn run_case<K: TestKey>(seed: u64, case: u64, rep: &mut Report) {
                 let hx = hex(&b3(&c));
                 let (a, b) = if rng.chance(1, 2) { (&hx[0..3], &hx[3..4]) } else { (&hx[0..1], &hx[1..4]) };
                 let d = cas_dir.join(a).join(b);
-                std::fs::create_dir_all(&d).unwrap();
-                std::fs::write(d.join(&hx[4..]), &c).unwrap();
+                // (an earlier plant may have made a file of the first component's name)
+                if std::fs::create_dir_all(&d).is_err() || std::fs::write(d.join(&hx[4..]), &c).is_err() {
+                    continue;
+                }
                 planted.push(format!("skewed-split file cas/{a}/{b}/{}", &hx[4..14]));
             }
             13 if !live.is_empty() => {
